@@ -840,6 +840,23 @@ private theorem specRun_cons (l : List (κ × ν)) (op : Op κ ν) (ops : List (
       ((specRun cmp (specStep cmp l op).1 ops).1,
         (specStep cmp l op).2 :: (specRun cmp (specStep cmp l op).1 ops).2) := rfl
 
+/-- the `ins` step alone (used twice: `p_tree_insert`, and the replace path of an insert under allocation failure) -/
+theorem rbStep_refines_ins [TransCmp cmp] (k : κ) (v : ν) (t : RT κ ν) (n : Int)
+    (ho : t.toBT.Ordered cmp) (hi : t.Inv) (hn : n = t.toList.length) :
+    ∃ t' n', rbStep cmp (t, n) (.ins k v) = some ((t', n'), (specStep cmp t.toList (.ins k v)).2) ∧
+      t'.toList = (specStep cmp t.toList (.ins k v)).1 ∧ t'.Inv ∧ t'.toBT.Ordered cmp ∧
+      n' = (t'.toList.length : Int) := by
+  have hs : SM.Sorted cmp t.toList := ho
+  obtain ⟨t', h, e, hinv⟩ := RT.ins_ok t k v hi hs
+  have hlen : (if (SM.find cmp t.toList k).isNone = true then n + 1 else n) =
+      ((SM.insert cmp t.toList k v).length : Int) := by
+    rw [SM.length_insert hs, hn]; split <;> simp
+  refine ⟨t', ((SM.insert cmp t.toList k v).length : Int), ?_, e, hinv, ?_, ?_⟩
+  · simp only [rbStep, h, Option.map_some, specStep, hlen]
+  · show SM.Sorted cmp t'.toList
+    rw [e]; exact SM.sorted_insert hs k v
+  · rw [e]
+
 theorem rbStep_refines [TransCmp cmp] (op : Op κ ν) (t : RT κ ν) (n : Int)
     (ho : t.toBT.Ordered cmp) (hi : t.Inv) (hn : n = t.toList.length) :
     ∃ t' n', rbStep cmp (t, n) op = some ((t', n'), (specStep cmp t.toList op).2) ∧
@@ -847,16 +864,22 @@ theorem rbStep_refines [TransCmp cmp] (op : Op κ ν) (t : RT κ ν) (n : Int)
       n' = (t'.toList.length : Int) := by
   have hs : SM.Sorted cmp t.toList := ho
   cases op with
-  | ins k v =>
-    obtain ⟨t', h, e, hinv⟩ := RT.ins_ok t k v hi hs
-    have hlen : (if (SM.find cmp t.toList k).isNone = true then n + 1 else n) =
-        ((SM.insert cmp t.toList k v).length : Int) := by
-      rw [SM.length_insert hs, hn]; split <;> simp
-    refine ⟨t', ((SM.insert cmp t.toList k v).length : Int), ?_, e, hinv, ?_, ?_⟩
-    · simp only [rbStep, h, Option.map_some, specStep, hlen]
-    · show SM.Sorted cmp t'.toList
-      rw [e]; exact SM.sorted_insert hs k v
-    · rw [e]
+  | ins k v => exact rbStep_refines_ins k v t n ho hi hn
+  | insf k v =>
+    have hp : (t.toBT.lookup cmp k).isSome = (SM.find cmp t.toList k).isSome := BT.lookup_isSome t.toBT ho k
+    by_cases hf : (SM.find cmp t.toList k).isSome = true
+    · have e1 : rbStep cmp (t, n) (.insf k v) = rbStep cmp (t, n) (.ins k v) := by
+        simp only [rbStep, hp, hf, if_true]
+      have e2 : specStep cmp t.toList (.insf k v) = specStep cmp t.toList (.ins k v) := by
+        simp only [specStep, hf, if_true]
+      rw [e1, e2]
+      exact rbStep_refines_ins k v t n ho hi hn
+    · have e1 : rbStep cmp (t, n) (.insf k v) = some ((t, n), .ins n []) := by
+        simp only [rbStep, hp, hf]; rfl
+      have e2 : specStep cmp t.toList (.insf k v) = (t.toList, .ins t.toList.length []) := by
+        simp only [specStep, hf]; rfl
+      rw [e1, e2]
+      exact ⟨t, n, by simp [hn], rfl, hi, ho, hn⟩
   | rem k =>
     obtain ⟨t', h, e, hinv⟩ := RT.del_ok t k hi hs
     have hlen : (if (SM.find cmp t.toList k).isSome = true then n - 1 else n) =
